@@ -786,7 +786,82 @@ func ruleSextet(c *Ctx) *RuleResult {
 	}
 	kFormula("graph.Sparse6Decode")
 	kFormula("graph.Sparse6Encode")
+	padRule(c, r, "graph.Sparse6Encode")
 	return r
+}
+
+// padRule: the format pads the last byte with 1-bits, except that for n = 2^k (k < 6) a run of
+// k+1 or more 1-bits would read as the pair (1, n-1), a loop at vertex n-1 once the vertex pointer
+// stands at n-2; "if there are k+1 or more bits to pad" a 0-bit goes first. The comparison that
+// guards the special case relates the bits left in the byte (6 - position) to k: written as
+// D >= 0 it must be D = 5 - position - k.
+func padRule(c *Ctx, r *RuleResult, fnName string) {
+	fn := c.Fn(fnName)
+	for _, f := range codecScope(fn) {
+		P := NewProver(c, f)
+		// k = 64 - LeadingZeros64(...)
+		var kAtoms []Poly
+		for _, b := range f.Blocks {
+			for _, in := range b.Instrs {
+				bo, ok := in.(*ssa.BinOp)
+				if !ok || bo.Op != token.SUB {
+					continue
+				}
+				if k, isK := constInt(bo.X); !isK || k != 64 {
+					continue
+				}
+				if call, ok := bo.Y.(*ssa.Call); ok && call.Call.StaticCallee() != nil && call.Call.StaticCallee().String() == "math/bits.LeadingZeros64" {
+					kAtoms = append(kAtoms, P.polyLoose(bo))
+				}
+			}
+		}
+		if len(kAtoms) == 0 {
+			continue
+		}
+		for _, b := range f.Blocks {
+			for _, in := range b.Instrs {
+				bo, ok := in.(*ssa.BinOp)
+				if !ok || !isInt(bo.X.Type()) || isByte(bo.X.Type()) {
+					continue
+				}
+				x, y := P.polyLoose(bo.X), P.polyLoose(bo.Y)
+				var D Poly
+				switch bo.Op {
+				case token.GTR:
+					D = x.add(y, -1).add(constP(-1), 1)
+				case token.GEQ:
+					D = x.add(y, -1)
+				case token.LSS:
+					D = y.add(x, -1).add(constP(-1), 1)
+				case token.LEQ:
+					D = y.add(x, -1)
+				default:
+					continue
+				}
+				for _, kp := range kAtoms {
+					rest := D.add(kp, 1) // D + k: what is left should be  c0 - position
+					ms := rest.monos()
+					var vars []string
+					for _, m := range ms {
+						if m != "" {
+							vars = append(vars, m)
+						}
+					}
+					if D.add(kp, 1).key() == D.key() || len(vars) != 1 || strings.Contains(vars[0], "*") || rest[vars[0]] != -1 || rest[""] <= 0 {
+						continue
+					}
+					// the other variable must be a bit position: something compared with 6 elsewhere is not required; the shape is enough
+					c0 := rest[""]
+					r.inst("%s: zero-bit padding case applies when (bits left in the byte) >= k + %d", fnName, 6-c0)
+					ok := c0 == 5
+					r.oblig(ok)
+					if !ok {
+						r.find(fnName+":padding threshold", c.instrPos(in), "%s applies the zero-bit padding exception only when %d - position - k >= 0, i.e. from k+%d padding bits; the format prescribes it for k+1 or more (exactly k+1 one-bits already read as the pair (1, n-1): a loop at vertex n-1)", fnName, c0, 6-c0)
+					}
+				}
+			}
+		}
+	}
 }
 
 // rangeDominates: every Index of the string whose result feeds arithmetic (s[c]-63) is dominated
@@ -886,7 +961,9 @@ func init() {
 			ruleHdrEncoder(c, h, "graph.Sparse6Encode", 1, "58")
 			ruleHdrDecoder(c, h, "graph.Graph6Decode")
 			ruleHdrDecoder(c, h, "graph.Sparse6Decode")
-			return []*RuleResult{h, ruleSextet(c), ruleEdgeByte(c, "graph")}
+			ds := ruleDegSync(c, inFiles("encoding.go"))
+			ds.MinInst = 1
+			return []*RuleResult{h, ruleSextet(c), ruleEdgeByte(c, "graph"), ds}
 		},
 		controls: func(ctl *Ctx) []*RuleResult {
 			h := &RuleResult{Rule: "HDR"}
